@@ -51,6 +51,8 @@ def rdev(rng, typ=None, **kw):
         d.update(state=rng.randrange(2), watts=rng.choice([0, 1, 109, 110, 111, 219, 220, 2600, 65535, 61694, 65264, rng.randrange(65536)]),
                  remaining=rng.choice([0, 1, 59, 3600, 5400, 86399, 61694, 65264, 65536, rng.randrange(86400)]),
                  auto=rng.choice([0, 3600, 10800, 86340, 86399, 61694, 65264, 65536, 70000, rng.randrange(86400)]))
+        if d["state"] == 0 and rng.random() < 0.25:      # an OFF device's counter may hold anything (it is reported as zero)
+            d["remaining"] = rng.choice([86400, 86401, 90000, 16777216, 2147483647, 2147483648, 4294967295])
     elif fam == "thermo":
         d.update(state=rng.randrange(2), mode=rng.randrange(1, 6), target=rng.choice([0, 16, 24, 30, 255, rng.randrange(256)]),
                  fan=rng.randrange(4), swing=rng.randrange(2), temp10=rng.choice([0, 1, 255, 256, 281, 65535, 61694, 65264, rng.randrange(65536)]),
